@@ -105,6 +105,10 @@ class Gateway:
                 self.apply(t[2])
 
     def apply(self, action):
+        if getattr(self, "elog", None) and action in ("lose", "lose_keep") and self.present:
+            self.elog({"ev": "lose"})
+        if getattr(self, "elog", None) and action == "return" and not self.present:
+            self.elog({"ev": "return"})
         if action == "lose":
             self.present = False
             self.pending.clear()
@@ -163,6 +167,8 @@ class FakeHidOS:
         if not hasattr(gw, "openlog"):
             gw.openlog = []
         gw.openlog.append([round(gw.loop.time(), 6), 1 if gw.present else 0])
+        if getattr(gw, "elog", None) and gw.opens > 1:
+            gw.elog({"ev": "open_ok" if gw.present else "open_failed"})
         if not gw.present:
             raise OSError(19, "No such device")
         self._next_fd += 1
@@ -181,9 +187,13 @@ class FakeHidOS:
         if gw.arrived:
             gw.nreports_delivered += 1
             data = gw.arrived.popleft()
+            if getattr(gw, "elog", None) and data[0] in (0x12, 0x01):
+                gw.elog({"ev": "deliver" if data[0] == 0x12 else "deliver_info"})
             gw.fire("after_report", gw.nreports_delivered)
             return data
         if not gw.present:
+            if getattr(gw, "elog", None):
+                gw.elog({"ev": "eof"})
             if gw.sc.get("loss_mode", "eof") == "eof":
                 return b""
             raise OSError(5, "Input/output error")
@@ -193,10 +203,15 @@ class FakeHidOS:
         gw = self.gw
         if not gw.present or gw.write_error or gw.fd != fd:
             gw.write_error = False          # a write error is a one-off glitch; a vanished device stays absent
+            if getattr(gw, "elog", None) and data[0] == 0x12:
+                gw.elog({"ev": "write_failed", "c": _task_name()})
             gw.writes.append({"ix": len(gw.writes) + 1, "task": _task_name(), "data": list(data),
                               "now": round(gw.loop.time(), 6), "failed": 1})
             gw.fire("after_write", len(gw.writes))
             raise OSError(19, "No such device")
+        if getattr(gw, "elog", None) and data[0] == 0x12:
+            k = "edt" if (data[3] == 3 and data[6] == 0xC1) else "cmd"
+            gw.elog({"ev": "write", "c": _task_name(), "kind": k})
         gw.log_write(data)
         gw.on_write(bytes(data))
         return len(data)
